@@ -3,7 +3,12 @@
 PLANS = {
     "C01": {"quick": {"runs": 900, "budget_s": 80, "det": 16}, "thorough": {"runs": 60000, "budget_s": 1500, "det": 64}},
     "C11": {"quick": {"runs": 1100, "budget_s": 80, "det": 4}, "thorough": {"runs": 12000, "budget_s": 1500, "det": 16}},
-    "C02": {"quick": {"runs": 16000, "budget_s": 75, "det": 32}, "thorough": {"runs": 1200000, "budget_s": 1500, "det": 256}},
+    "C02": {"quick": {"runs": 12000, "budget_s": 75, "det": 32, "also": [("C02P", 5000)]},
+            "thorough": {"runs": 900000, "budget_s": 1500, "det": 256, "also": [("C02P", 400000)]}},
+    "C05": {"quick": {"runs": 16000, "budget_s": 75, "det": 32}, "thorough": {"runs": 1200000, "budget_s": 1500, "det": 256}},
+    "C10": {"quick": {"runs": 16000, "budget_s": 75, "det": 32}, "thorough": {"runs": 1200000, "budget_s": 1500, "det": 256}},
+    "C18": {"quick": {"runs": 60000, "budget_s": 60, "det": 64}, "thorough": {"runs": 3000000, "budget_s": 1200, "det": 512}},
+    "C20": {"quick": {"runs": 220, "budget_s": 80, "det": 4}, "thorough": {"runs": 12000, "budget_s": 1500, "det": 16}},
     "C04": {"quick": {"runs": 14000, "budget_s": 75, "det": 32}, "thorough": {"runs": 1000000, "budget_s": 1500, "det": 256}},
     "C17": {"quick": {"runs": 14000, "budget_s": 75, "det": 32}, "thorough": {"runs": 1000000, "budget_s": 1500, "det": 256}},
 }
@@ -15,6 +20,26 @@ LEVELS = {
 }
 
 RULES = {
+    "C05": "one case = swarm configuration + writer history (commits, merges, rollbacks, delete_all, GC, writer restarts) + 1..3 reader "
+           "threads on 1..2 IndexReaders (one of them on a second Index::open of the same storage, i.e. protected by META_LOCK only; "
+           "sometimes two threads share one IndexReader; Manual or OnCommitWithDelay) that reload / look / hold searchers, under seeded "
+           "schedules incl. starve(reader|updater|merge|watch). Every observation is recorded with storage-op and scheduler-step "
+           "stamps and checked afterwards: == exactly one commit that was current or in flight during the reload, never going back on "
+           "the same IndexReader in real-time order, reloads never fail, held searchers keep their fingerprint through commits, "
+           "merges, GC and writer shutdown. Non-trivial: >=1 commit and >=1 reload that overlapped storage operations of other threads.",
+    "C10": "the C05 simulation with a second-Index reader always present and more explicit GC, attributed to C10: reloads must never "
+           "miss a file (needed-file monitor), and at scheduler-defined quiescence after a final GC the directory is exactly the files "
+           "of the committed segments + meta.json + .managed.json, and .managed.json lists exactly the managed files that exist; the "
+           "same equality is checked on recovered crash images by C01 and after fault recovery by C11.",
+    "C18": "one case = seeded lifecycle over {create writer (valid / budget too small / too large / zero threads) on either of two Index "
+           "handles, rollback, drop, wait_merging_threads, attempt while locked, 2..3 racing creations from threads, kill a worker by "
+           "I/O errors then drop} against a 1-bit lock model, on tantivy's file-based lock (70%) or the harness flock (30%). "
+           "Non-trivial: >=1 refused attempt or one race.",
+    "C20": "one case = an index written by a seeded history under short writes / EINTR on every writer; then for every file of every "
+           "committed segment: every single-bit flip of the body (files with body <= 96 B in quick, <= 4 KiB in thorough; else sampled "
+           "positions), every truncation length (sampled for larger files in quick), extensions by 1..64 bytes, multi-byte "
+           "substitutions, and footer format versions outside [4,7]; each damaged copy is validated. evaluations = executions + "
+           "damage cases; non-trivial: >=1 damage case.",
     "C11": "one base case = swarm configuration + operation history + schedule seed, first executed fault-free (which records its "
            "N storage operations), then re-executed once per fault point: an I/O error at storage op k -- quick: 24 stratified k "
            "per base case with one flavour each, thorough: every k x {fails once, fails from k on, ENOSPC from k on} -- on whichever "
